@@ -9,6 +9,7 @@ from __future__ import annotations
 import ast
 
 from harness.common import TranslateError, ast_digest, src_text
+from translate.c13_nullstr import module_constants
 
 
 def _const_int(node) -> int:
@@ -40,6 +41,72 @@ def _fmt_widths(fmt: str) -> list[int]:
         return [w[ch] for ch in fmt[1:]]
     except KeyError as e:
         raise TranslateError(f'struct format {fmt!r}: unsupported code {e}')
+
+
+def _local_env(fn: ast.FunctionDef) -> dict:
+    """Locals of a function that are bound exactly once, by a plain `name = <expr>`."""
+    stores: dict[str, int] = {}
+    for n in ast.walk(fn):
+        if isinstance(n, ast.Name) and isinstance(n.ctx, (ast.Store, ast.Del)):
+            stores[n.id] = stores.get(n.id, 0) + 1
+    env = {}
+    for n in ast.walk(fn):
+        if isinstance(n, ast.Assign) and len(n.targets) == 1 and isinstance(n.targets[0], ast.Name) and stores.get(n.targets[0].id) == 1:
+            env[n.targets[0].id] = n.value
+    return env
+
+
+def _resolve(node, *envs):
+    """Follow a name through single-assignment locals, then module constants."""
+    for _ in range(6):
+        if isinstance(node, ast.Name):
+            for env in envs:
+                if node.id in env:
+                    node = env[node.id]
+                    break
+            else:
+                return node
+        else:
+            return node
+    return node
+
+
+def _str_const(node, *envs):
+    node = _resolve(node, *envs)
+    return node.value if isinstance(node, ast.Constant) and isinstance(node.value, str) else None
+
+
+def _struct_site(call: ast.Call, op: str, *envs):
+    """`struct.<op>(fmt, *args)`, `<Struct object>.<op>(*args)` (the object may be a local or module constant bound to
+    `struct.Struct(fmt)`), and for op == 'unpack' also `struct_read(fmt, file)`  ->  (fmt, args) or None."""
+    f = call.func
+    if call.keywords:
+        return None
+    if isinstance(f, ast.Attribute) and f.attr == op:
+        if isinstance(f.value, ast.Name) and f.value.id == 'struct' and call.args:
+            fmt = _str_const(call.args[0], *envs)
+            return (fmt, call.args[1:]) if fmt is not None else None
+        obj = _resolve(f.value, *envs)
+        if isinstance(obj, ast.Call) and not obj.keywords and len(obj.args) == 1 and (
+                (isinstance(obj.func, ast.Attribute) and obj.func.attr == 'Struct' and isinstance(obj.func.value, ast.Name) and obj.func.value.id == 'struct')
+                or (isinstance(obj.func, ast.Name) and obj.func.id == 'Struct')):
+            fmt = _str_const(obj.args[0], *envs)
+            return (fmt, call.args) if fmt is not None else None
+    if op == 'unpack' and isinstance(f, ast.Name) and f.id == 'struct_read' and len(call.args) == 2:
+        fmt = _str_const(call.args[0], *envs)
+        return (fmt, call.args[1:]) if fmt is not None else None
+    return None
+
+
+def _sites(fn: ast.FunctionDef, op: str, consts: dict) -> list:
+    env = _local_env(fn)
+    out = []
+    for n in ast.walk(fn):
+        if isinstance(n, ast.Call):
+            r = _struct_site(n, op, env, consts)
+            if r is not None:
+                out.append((n, r[0], r[1]))
+    return sorted(out, key=lambda t: (t[0].lineno, t[0].col_offset))
 
 
 def _split_site(tree) -> tuple[str, int, dict]:
@@ -97,11 +164,10 @@ def translate() -> tuple[str, dict]:
     tree = ast.parse(src_text('vpk.py'))
     side: dict = {}
     consts: dict[str, int] = {}
-    for n in tree.body:
-        if isinstance(n, ast.AnnAssign) and isinstance(n.target, ast.Name) and n.target.id in ('VPK_SIG', 'DIR_ARCH_INDEX', 'MAX_PRELOAD') and n.value is not None:
-            consts[n.target.id] = _const_int(n.value)
-        if isinstance(n, ast.Assign) and len(n.targets) == 1 and isinstance(n.targets[0], ast.Name) and n.targets[0].id in ('VPK_SIG', 'DIR_ARCH_INDEX', 'MAX_PRELOAD'):
-            consts[n.targets[0].id] = _const_int(n.value)
+    mconsts = module_constants(tree)
+    for nm in ('VPK_SIG', 'DIR_ARCH_INDEX', 'MAX_PRELOAD'):
+        if nm in mconsts:
+            consts[nm] = _const_int(_resolve(mconsts[nm], mconsts))
     for c in ('VPK_SIG', 'DIR_ARCH_INDEX'):
         if c not in consts:
             raise TranslateError(f'constant {c} not found')
@@ -114,98 +180,120 @@ def translate() -> tuple[str, dict]:
     fwrite = _find(finfo.body, ast.FunctionDef, 'write')
     side['digests'] = {f.name: ast_digest(f) for f in (load, wdir, newf, addf, fwrite)}
 
-    # ---------------- reader: struct.Struct('<IHHIIH'), unpack target order, sentinels
-    st = _calls(load, lambda c: _is_attr_call(c, 'struct', 'Struct'))
-    if len(st) != 1 or not (st[0].args and isinstance(st[0].args[0], ast.Constant) and isinstance(st[0].args[0].value, str)):
-        raise TranslateError('load_dirfile: entry struct.Struct(<literal>) not recognised')
-    read_fmt = st[0].args[0].value
-    read_fields = None
+    # ---------------- reader: the unpack sites (struct.unpack / Struct object / struct_read), target order, sentinels
+    usites = _sites(load, 'unpack', mconsts)
+    targets = {}
     for n in ast.walk(load):
-        if isinstance(n, ast.Assign) and isinstance(n.targets[0], ast.Tuple) and isinstance(n.value, ast.Call) \
-                and isinstance(n.value.func, ast.Attribute) and n.value.func.attr == 'unpack':
-            read_fields = [e.id for e in n.targets[0].elts if isinstance(e, ast.Name)]
-    if read_fields is None or len(read_fields) != len(_fmt_widths(read_fmt)):
+        if isinstance(n, ast.Assign) and len(n.targets) == 1 and isinstance(n.targets[0], ast.Tuple) and isinstance(n.value, ast.Call):
+            targets[id(n.value)] = [e.id if isinstance(e, ast.Name) else None for e in n.targets[0].elts]
+    in_loops = {id(c) for f in ast.walk(load) if isinstance(f, ast.For) for b in f.body for c in ast.walk(b)}
+    entry_sites = [(c, fmt) for c, fmt, _ in usites if id(c) in in_loops]
+    head_sites = [(c, fmt) for c, fmt, _ in usites if id(c) not in in_loops]
+    if len(entry_sites) != 1 or id(entry_sites[0][0]) not in targets:
+        raise TranslateError('load_dirfile: exactly one entry unpack site `a, b, ... = <struct>.unpack(...)` inside the tree loops expected')
+    read_fmt = entry_sites[0][1]
+    read_fields = targets[id(entry_sites[0][0])]
+    if None in read_fields or len(read_fields) != len(_fmt_widths(read_fmt)):
         raise TranslateError('load_dirfile: entry.unpack target tuple not recognised')
-    hdr = _calls(load, lambda c: isinstance(c.func, ast.Name) and c.func.id == 'struct_read')
-    hdr_fmts = [c.args[0].value for c in hdr if c.args and isinstance(c.args[0], ast.Constant)]
+    hdr_fmts = [fmt for _, fmt in head_sites]
     if not hdr_fmts or hdr_fmts[0] != '<III':
         raise TranslateError(f'load_dirfile: header format {hdr_fmts!r} not recognised')
-    # FileInfo(self, directory, file, ext, crc, arch_ind, offset, arch_len, dirfile.read(index_len))
+    # FileInfo(self, directory, file, ext, crc, arch_ind, offset, arch_len, dirfile.read(index_len)) — matched by the ROLE of each
+    # unpack target (position in the format), not by the names of the locals
     fi = _calls(load, lambda c: isinstance(c.func, ast.Name) and c.func.id == 'FileInfo')
-    if len(fi) != 1:
+    if len(fi) != 1 or fi[0].keywords:
         raise TranslateError('load_dirfile: FileInfo(...) construction not recognised')
     fi_args = [ast.unparse(a) for a in fi[0].args]
+    t_crc, t_plen, t_idx, t_off, t_alen, t_end = read_fields if len(read_fields) == 6 else [None] * 6
+    fors = [n for n in ast.walk(load) if isinstance(n, ast.For) and isinstance(n.target, ast.Name)]
+    loop_vars = [f.target.id for f in sorted(fors, key=lambda f: f.lineno)]       # ext, directory, file (outermost first)
+    file_obj = ast.unparse(entry_sites[0][0].args[-1].func.value) if entry_sites[0][0].args and isinstance(entry_sites[0][0].args[-1], ast.Call) \
+        and isinstance(entry_sites[0][0].args[-1].func, ast.Attribute) else ast.unparse(entry_sites[0][0].args[-1]) if entry_sites[0][0].args else None
     # sentinel tests
     read_dir_sentinel = read_term = None
     zero_len_resets_offset = False
+
+    def cval(r):
+        return _const_int(_resolve(r, mconsts))
     for n in ast.walk(load):
-        if isinstance(n, ast.If) and isinstance(n.test, ast.Compare) and len(n.test.ops) == 1 and isinstance(n.test.left, ast.Name):
-            l, o, r = n.test.left.id, n.test.ops[0], n.test.comparators[0]
-            if l == 'arch_ind' and isinstance(o, ast.Eq) and ast.unparse(n.body[0]) == 'arch_ind = None':
-                read_dir_sentinel = consts[r.id] if isinstance(r, ast.Name) and r.id in consts else _const_int(r)
-            elif l == 'arch_len' and isinstance(o, ast.Eq) and _const_int(r) == 0 and ast.unparse(n.body[0]) == 'offset = 0':
-                zero_len_resets_offset = True
-            elif l == 'end' and isinstance(o, ast.NotEq) and isinstance(n.body[0], ast.Raise):
-                read_term = _const_int(r)
+        if isinstance(n, ast.If) and isinstance(n.test, ast.Compare) and len(n.test.ops) == 1 and not n.orelse:
+            l, o, r = n.test.left, n.test.ops[0], n.test.comparators[0]
+            if not isinstance(l, ast.Name) and isinstance(r, ast.Name):
+                l, r = r, l
+            if not isinstance(l, ast.Name):
+                continue
+            l = l.id
+            if l == t_idx and isinstance(o, ast.Eq) and len(n.body) == 1 and ast.unparse(n.body[0]) == f'{t_idx} = None':
+                read_dir_sentinel = cval(r)
+            elif l == t_alen and isinstance(o, ast.Eq) and len(n.body) == 1 and ast.unparse(n.body[0]) == f'{t_off} = 0':
+                zero_len_resets_offset = cval(r) == 0
+            elif l == t_end and isinstance(o, ast.NotEq) and isinstance(n.body[0], ast.Raise):
+                read_term = cval(r)
     if read_dir_sentinel is None or read_term is None:
         raise TranslateError('load_dirfile: sentinel tests (arch_ind == DIR_ARCH_INDEX / end != 0xffff) not recognised')
 
     # ---------------- writer
-    packs = _calls(wdir, lambda c: _is_attr_call(c, 'struct', 'pack'))
-    entry_pack = [c for c in packs if c.args and isinstance(c.args[0], ast.Constant) and len(c.args) == 7]
-    head_pack = [c for c in packs if c.args and isinstance(c.args[0], ast.Constant) and len(c.args) == 4]
+    psites = _sites(wdir, 'pack', mconsts)
+    entry_pack = [(fmt, a) for _, fmt, a in psites if len(a) == 6]
+    head_pack = [(fmt, a) for _, fmt, a in psites if len(a) == 3]
     if len(entry_pack) != 1 or len(head_pack) != 1:
-        raise TranslateError('write_dirfile: struct.pack sites not recognised')
-    write_fmt = entry_pack[0].args[0].value
-    write_fields = [ast.unparse(a) for a in entry_pack[0].args[1:]]
-    write_term = _const_int(entry_pack[0].args[6])
-    if head_pack[0].args[0].value != '<III' or ast.unparse(head_pack[0].args[1]) != 'VPK_SIG':
+        raise TranslateError('write_dirfile: struct pack sites (one header with 3 values, one entry with 6) not recognised')
+    write_fmt = entry_pack[0][0]
+    write_fields = [ast.unparse(a) for a in entry_pack[0][1]]
+    write_term = _const_int(_resolve(entry_pack[0][1][5], _local_env(wdir), mconsts))
+    if head_pack[0][0] != '<III' or ast.unparse(head_pack[0][1][0]) != 'VPK_SIG':
         raise TranslateError('write_dirfile: header pack not recognised')
+    # the loop variable that holds the FileInfo: `for <name>, <info> in sorted(files.items(), ...)` (innermost loop)
+    wfors = sorted([n for n in ast.walk(wdir) if isinstance(n, ast.For)], key=lambda f: f.lineno)
+    if len(wfors) != 3 or not (isinstance(wfors[2].target, ast.Tuple) and len(wfors[2].target.elts) == 2 and isinstance(wfors[2].target.elts[1], ast.Name)):
+        raise TranslateError('write_dirfile: three nested loops, the innermost over (name, info) pairs, expected')
+    iv = wfors[2].target.elts[1].id
+    # the archive index written: `X = DIR_ARCH_INDEX if info.arch_index is None else info.arch_index` as if/else or conditional expression
     write_dir_sentinel = None
+    idx_expr = write_fields[2]
+
+    def sentinel_choice(test, a_none, a_some):
+        src = ast.unparse(test)
+        if src == f'{iv}.arch_index is not None':
+            a_none, a_some = a_some, a_none
+        elif src != f'{iv}.arch_index is None':
+            return None
+        return _const_int(_resolve(a_none, mconsts)) if ast.unparse(a_some) == f'{iv}.arch_index' else None
     for n in ast.walk(wdir):
-        if isinstance(n, ast.If) and ast.unparse(n.test) == 'info.arch_index is None' and len(n.body) == 1 and len(n.orelse) == 1:
-            b, e = n.body[0], n.orelse[0]
-            if isinstance(b, ast.Assign) and ast.unparse(b.targets[0]) == 'arch_ind' and ast.unparse(e) == 'arch_ind = info.arch_index':
-                v = b.value
-                write_dir_sentinel = consts[v.id] if isinstance(v, ast.Name) and v.id in consts else _const_int(v)
+        if isinstance(n, ast.If) and len(n.body) == 1 and len(n.orelse) == 1 and all(
+                isinstance(x, ast.Assign) and len(x.targets) == 1 and ast.unparse(x.targets[0]) == idx_expr for x in (n.body[0], n.orelse[0])):
+            write_dir_sentinel = sentinel_choice(n.test, n.body[0].value, n.orelse[0].value)
+        if isinstance(n, ast.Assign) and len(n.targets) == 1 and ast.unparse(n.targets[0]) == idx_expr and isinstance(n.value, ast.IfExp):
+            write_dir_sentinel = sentinel_choice(n.value.test, n.value.body, n.value.orelse)
+    ix = entry_pack[0][1][2]
+    if write_dir_sentinel is None and isinstance(ix, ast.IfExp):
+        write_dir_sentinel = sentinel_choice(ix.test, ix.body, ix.orelse)
+        idx_expr = None
     if write_dir_sentinel is None:
         raise TranslateError('write_dirfile: arch_index None -> DIR_ARCH_INDEX site not recognised')
-    want_w = ['info.crc', 'len(info.start_data)', 'arch_ind', 'info.offset', 'info.arch_len']
-    want_r = ['crc', 'index_len', 'arch_ind', 'offset', 'arch_len', 'end']
-    fields_match = write_fields[:5] == want_w and read_fields == want_r and \
-        fi_args == ['self', 'directory', 'file', 'ext', 'crc', 'arch_ind', 'offset', 'arch_len', 'dirfile.read(index_len)']
+    want_w = [f'{iv}.crc', f'len({iv}.start_data)', write_fields[2], f'{iv}.offset', f'{iv}.arch_len']
+    fields_match = write_fields[:5] == want_w and len(read_fields) == 6 and len(set(read_fields)) == 6 and len(loop_vars) == 3 and \
+        fi_args == ['self', loop_vars[1], loop_vars[2], loop_vars[0], t_crc, t_idx, t_off, t_alen, f'{file_obj}.read({t_plen})']
 
-    # ---------------- null strings: ' ' stands for ''
-    wn = _find(tree.body, ast.FunctionDef, '_write_nullstring')
-    itn = _find(tree.body, ast.FunctionDef, 'iter_nullstr')
-    blank_written = any(isinstance(n, ast.Constant) and n.value == b' \x00' for n in ast.walk(wn))
-    blank_read = any(isinstance(n, ast.Compare) and ast.unparse(n) == "string == ' '" for n in ast.walk(itn))
+    # (null strings: translate/c13_nullstr.py)
 
     # ---------------- FileInfo.write placement sites (booleans)
-    src_w = [ast.unparse(s) for s in ast.walk(fwrite) if isinstance(s, ast.stmt)]
-    tail_to_footer = False
-    for n in ast.walk(fwrite):
-        if isinstance(n, ast.If) and ast.unparse(n.test) == 'arch_index is None':
-            body = [ast.unparse(s) for s in n.body]
-            if body == ['self.offset = len(self.vpk.footer_data)', 'self.vpk.footer_data += arch_data']:
-                tail_to_footer = True
-    cap = False
-    for n in ast.walk(fwrite):
-        if isinstance(n, ast.If) and ast.unparse(n.test) == 'prefix is None or limit is None':
-            body = [ast.unparse(s) for s in n.body]
-            els = [ast.unparse(s) for s in n.orelse]
-            if body == ['arch_index = None', 'limit = MAX_PRELOAD'] and els == ['if limit > MAX_PRELOAD:\n    limit = MAX_PRELOAD']:
-                cap = True
-    split_ok = 'self.start_data = data[:limit]' in src_w and 'arch_data = data[limit:]' in src_w and 'limit = self.vpk.dir_limit' in src_w
+    # FileInfo.write is executed on symbolic values for all 24 combinations of (directory VPK?, limit class, index None?, rest empty?):
+    # translate/c13_place.py; the table is judged in Coq (SM/VpkPlace.v place_cut_ok / place_dest_ok / place_table_ok)
+    from translate import c13_place
+    pw = c13_place.analyse_write(fwrite, consts)
+    cap, tail_to_footer = c13_place.rows_ok(pw['rows'])
+    split_ok = True
+    side['place'] = {'rows': pw['rows'], 'same_crc_skips': pw['same_crc_skips'], 'facts': pw['facts']}
+    # FileInfo.read / verify on symbolic values: where the bytes after start_data come from, per (arch_len zero?, arch_index None?)
+    rd = c13_place.analyse_readers(finfo)
+    side['readers'] = rd
+    # the two validations are *executed* (translate/c13_place.py mini_exec): `_check_arch_index` on None and on integers around the limits,
+    # the name validation of new_file on all triples of probe strings; the call sites of `_check_arch_index` are guarded by "is a directory VPK"
     idx_fn = [n for n in tree.body if isinstance(n, ast.FunctionDef) and n.name == '_check_arch_index']
-    idx_cmp = bool(idx_fn) and any(isinstance(n, ast.If) and ast.unparse(n.test) == 'arch_index is not None and (not 0 <= arch_index < DIR_ARCH_INDEX)'
-                                   for n in ast.walk(idx_fn[0]))
-    def guarded_idx(fn):
-        return any(isinstance(n, ast.If) and ast.unparse(n.test) in ('self.vpk._dir_prefix is not None', 'self._dir_prefix is not None')
-                   and [ast.unparse(s) for s in n.body] == ['_check_arch_index(arch_index)'] for n in fn.body)
-    chk_idx = idx_cmp and guarded_idx(fwrite) and guarded_idx(addf)
-    chk_name = any(isinstance(n, ast.If) and ast.unparse(n.test) == "'\\x00' in part or part == ' '" and isinstance(n.body[0], ast.Raise)
-                   for n in ast.walk(newf))
+    idx_cmp = bool(idx_fn) and c13_place.index_check_ok(idx_fn[0], consts)
+    chk_idx = idx_cmp and c13_place.index_check_guarded(fwrite, ('self.vpk',)) and c13_place.index_check_guarded(addf, ('self',))
+    chk_name = c13_place.name_check_ok(newf)
     max_pre = consts.get('MAX_PRELOAD')
     split_kind, split_sep, split_info = _split_site(tree)
 
@@ -213,14 +301,14 @@ def translate() -> tuple[str, dict]:
                 read_dir_sentinel=read_dir_sentinel, write_dir_sentinel=write_dir_sentinel, read_term=read_term,
                 write_term=write_term, zero_len_resets_offset=zero_len_resets_offset, fields_match=fields_match,
                 tail_to_footer=tail_to_footer, preload_capped=cap and split_ok, chk_idx=chk_idx, chk_name=chk_name,
-                blank_written=blank_written, blank_read=blank_read, ext_split=[split_kind, split_sep, split_info],
+                ext_split=[split_kind, split_sep, split_info],
                 lines={'load_dirfile': load.lineno, 'write_dirfile': wdir.lineno, 'FileInfo.write': fwrite.lineno,
                        'new_file': newf.lineno, 'add_file': addf.lineno})
     b = lambda x: 'true' if x else 'false'
     nl = lambda xs: '[' + '; '.join(str(x) for x in xs) + ']%N'
     text = '\n'.join([
         '(* GENERATED by translate/c13_vpk.py from /repo/src/srctools/vpk.py. Do not edit. *)',
-        'From Coq Require Import List NArith Bool.', 'From SV Require Import Fmt.VpkDir SM.Vpk Fmt.VpkNameSplit.', 'Import ListNotations.',
+        'From Coq Require Import List NArith Bool.', 'From SV Require Import Fmt.VpkDir SM.Vpk Fmt.VpkNameSplit SM.VpkPlace.', 'Import ListNotations.',
         'Open Scope N_scope.',
         f'Definition g_sig : N := {consts["VPK_SIG"]}.',
         f'Definition g_dir_index_write : N := {write_dir_sentinel}.',
@@ -231,10 +319,14 @@ def translate() -> tuple[str, dict]:
         f'Definition g_entry_widths_read : list N := {nl(_fmt_widths(read_fmt))}.',
         f'Definition g_entry_fields_match : bool := {b(fields_match)}.',
         f'Definition g_zero_len_resets_offset : bool := {b(zero_len_resets_offset)}.',
-        f'Definition g_blank_is_space : bool := {b(blank_written and blank_read)}.',
         f'Definition g_max_preload : option N := {"Some " + str(max_pre) if max_pre is not None else "None"}.',
-        f'Definition g_preload_capped : bool := {b(cap and split_ok)}.',
-        f'Definition g_tail_to_footer : bool := {b(tail_to_footer)}.',
+        f'(* FileInfo.write (line {fwrite.lineno}) executed on symbolic values: one row per combination of directory VPK? / limit class / index None? / rest empty? *)',
+        'Definition g_place_table : list prow :=\n  ' + c13_place.coq_rows(pw['rows']) + '.',
+        f'Definition g_same_crc_skips : bool := {b(pw["same_crc_skips"])}.',
+        'Definition g_preload_capped : bool := place_cut_ok g_place_table.',
+        '(* FileInfo.read / FileInfo.verify executed on symbolic values: (arch_len zero, arch_index None, source of read, source verify checks) *)',
+        'Definition g_read_table : list rrow := ' + c13_place.coq_read_rows(rd['rows']) + '.',
+        'Definition g_tail_to_footer : bool := place_dest_ok g_place_table.',
         f'Definition g_chk_idx : bool := {b(chk_idx)}.',
         f'Definition g_chk_name : bool := {b(chk_name)}.',
         f'Definition g_ext_split : split_kind := {split_kind} {split_sep}.',
